@@ -644,4 +644,323 @@ Section Univ.
     - apply H.
     - apply H.
   Qed.
+  (* ----- Delete ----- *)
+  Definition untag_all (refs : list ref) (m : resolver) := fold_left (fun m r => res_untag r m) refs m.
+
+  Lemma untag_all_lookup refs : forall m r,
+    lookup r (r_index (untag_all refs m)) = if existsb (ref_eqb r) refs then None else lookup r (r_index m).
+  Proof.
+    induction refs as [|r0 refs IH]; intros m r; simpl; auto.
+    unfold untag_all in *. rewrite IH, res_untag_lookup.
+    destruct (ref_eqb r r0); simpl; destruct (existsb (ref_eqb r) refs); auto.
+  Qed.
+  Lemma untag_all_nodup refs : forall m, NoDup (map fst (r_index m)) -> NoDup (map fst (r_index (untag_all refs m))).
+  Proof.
+    induction refs; intros m H; simpl; auto. apply IHrefs. now apply res_untag_nodup.
+  Qed.
+
+  Definition refs_of (k : nat) (ix : rmap) := map fst (filter (fun kv => Nat.eqb (d_node (snd kv)) k) ix).
+
+  Lemma del_lookup k ix m r : r_index m = ix -> NoDup (map fst ix) ->
+    lookup r (r_index (untag_all (refs_of k ix) m)) =
+    match lookup r ix with Some d => if Nat.eqb (d_node d) k then None else Some d | None => None end.
+  Proof.
+    intros E ND. rewrite untag_all_lookup, E.
+    destruct (existsb (ref_eqb r) (refs_of k ix)) eqn:X.
+    - apply existsb_exists in X as (r' & I & Er). apply ref_eqb_eq in Er. subst r'.
+      apply in_map_iff in I as ((r', d) & Ef & I). simpl in Ef. subst r'.
+      apply filter_In in I as [I Ek]. simpl in Ek. rewrite (In_lookup _ _ _ ND I), Ek. reflexivity.
+    - destruct (lookup r ix) as [d|] eqn:L; auto.
+      destruct (Nat.eqb (d_node d) k) eqn:Ek; auto.
+      exfalso. apply Bool.not_true_iff_false in X. apply X. apply existsb_exists. exists r.
+      split; [|apply ref_eqb_refl]. apply in_map_iff. exists (r, d). split; auto.
+      apply filter_In. split; auto. now apply lookup_Some_In.
+  Qed.
+
+  Lemma graph_remove_fst k g x : In x (fst (graph_remove succs k g)) <-> x <> k /\ In x g.
+  Proof.
+    unfold graph_remove. destruct (mem k g) eqn:M; simpl.
+    - apply In_del.
+    - apply mem_false in M. split; [|tauto]. intro H. split; auto. intro; subst. contradiction.
+  Qed.
+
+  Lemma delete_invc k bl ix g m bl' :
+    InvC bl ix g -> r_index m = ix ->
+    (forall x, In x bl' <-> (x <> k /\ In x bl) \/ (In x bl /\ ~ In k bl)) ->
+    InvC bl' (r_index (untag_all (refs_of k ix) m)) (fst (graph_remove succs k g)).
+  Proof.
+    intros H E Hb.
+    assert (ND : NoDup (map fst ix)) by apply H.
+    assert (V : forall r d, lookup r (r_index (untag_all (refs_of k ix) m)) = Some d ->
+                lookup r ix = Some d /\ d_node d <> k).
+    { intros r d L. rewrite (del_lookup k ix m r E ND) in L.
+      destruct (lookup r ix) as [d0|]; [|discriminate].
+      destruct (Nat.eqb (d_node d0) k) eqn:Ek; [discriminate|]. injection L as <-.
+      split; auto. now apply Nat.eqb_neq. }
+    assert (P : forall r d, lookup r ix = Some d -> d_node d <> k ->
+                lookup r (r_index (untag_all (refs_of k ix) m)) = Some d).
+    { intros r d L Nk. rewrite (del_lookup k ix m r E ND), L.
+      apply Nat.eqb_neq in Nk. now rewrite Nk. }
+    assert (B : forall x, x <> k -> In x bl -> In x bl').
+    { intros x Nx Ix. apply Hb. left. auto. }
+    split.
+    - split.
+      + apply untag_all_nodup. now rewrite E.
+      + intros k' d L. apply V in L as [L _]. eapply ix_j2; eauto. apply H.
+      + intros t d L. apply V in L as [L Nk].
+        pose proof (ix_j1 _ (inv_ix _ _ _ H) _ _ L) as X.
+        destruct (lookup (RDig (d_node d)) ix) as [d1|] eqn:L1; [|congruence].
+        pose proof (ix_j2 _ (inv_ix _ _ _ H) _ _ L1) as E1.
+        rewrite (P _ _ L1); congruence.
+    - intros r d L. apply V in L as [L Nk]. apply B; auto. eapply inv_i4; eauto.
+    - intros k' Mk Ik. apply Hb in Ik.
+      assert (Nk : k' <> k /\ In k' bl).
+      { destruct Ik as [?|[I Nk]]; auto. split; auto. intro; subst. contradiction. }
+      destruct Nk as [Nk Ik'].
+      pose proof (inv_k _ _ _ H _ Mk Ik') as X.
+      destruct (lookup (RDig k') ix) as [d1|] eqn:L1; [|congruence].
+      pose proof (ix_j2 _ (inv_ix _ _ _ H) _ _ L1) as E1.
+      rewrite (P _ _ L1); congruence.
+    - intros k' Mk Ik. apply graph_remove_fst in Ik as [Nk Ik]. apply B; auto. eapply inv_g2a; eauto.
+    - intros k' Mk Ik. apply Hb in Ik.
+      assert (Nk : k' <> k /\ In k' bl).
+      { destruct Ik as [?|[I Nk]]; auto. split; auto. intro; subst. contradiction. }
+      destruct Nk as [Nk Ik']. apply graph_remove_fst. split; auto. eapply inv_g2b; eauto.
+  Qed.
+
+  Lemma delete1_good cfg o k s : Good cfg s -> Good cfg (fst (fst (delete1 cfg o k s))).
+  Proof.
+    intros [H S]. unfold OciIndex.delete1.
+    fold (refs_of k (r_index (res s))). fold (untag_all (refs_of k (r_index (res s))) (res s)).
+    set (m := untag_all (refs_of k (r_index (res s))) (res s)).
+    set (g' := fst (graph_remove succs k (gr s))).
+    assert (I1 : forall dk, Inv (mkStore (del k (blobs s)) m g' dk)).
+    { intro dk. unfold Inv, idx. simpl.
+      apply (delete_invc k (blobs s) (r_index (res s)) (gr s) (res s)); [exact H|reflexivity|].
+      intro x. rewrite In_del. split; [tauto|].
+      intros [?|[Ix Nk]]; auto. split; auto. intro; subst. contradiction. }
+    assert (I2 : ~ In k (blobs s) -> forall dk, Inv (mkStore (blobs s) m g' dk)).
+    { intros Nk dk. unfold Inv, idx. simpl.
+      apply (delete_invc k (blobs s) (r_index (res s)) (gr s) (res s)); [exact H|reflexivity|].
+      intro x. split; [|tauto]. intro Ix. right. auto. }
+    assert (I3 : IxInv (r_index m)).
+    { exact (inv_ix _ _ _ (I1 [])). }
+    destruct (refs_of k (r_index (res s))) eqn:R.
+    - (* nothing untagged: the resolver is unchanged, index.json is not written *)
+      assert (Em : m = res s) by (unfold m; try rewrite R; reflexivity).
+      destruct (mem k (blobs s)) eqn:M; simpl.
+      + split; [apply I1|]. intro A. unfold Synced, idx. simpl. rewrite Em. now apply S.
+      + apply mem_false in M. split; [now apply I2|]. intro A. unfold Synced, idx. simpl. rewrite Em. now apply S.
+    - unfold maybe_save, do_save. destruct (autosave cfg) eqn:A; destruct (mem k (blobs s)) eqn:M; simpl.
+      + split; [apply I1|]. intros _. unfold Synced, idx. simpl. now apply save_diskok.
+      + apply mem_false in M. split; [now apply I2|]. intros _. unfold Synced, idx. simpl. now apply save_diskok.
+      + split; [apply I1|]. intro X; congruence.
+      + apply mem_false in M. split; [now apply I2|]. intro X; congruence.
+  Qed.
+
+  Lemma delete_loop_good cfg o fuel : forall q s, Good cfg s -> Good cfg (fst (delete_loop fuel cfg o q s)).
+  Proof.
+    induction fuel as [|f IH]; intros q s G; simpl; auto.
+    destruct q as [|h q]; simpl; auto.
+    pose proof (delete1_good cfg o h s G) as G1.
+    destruct (delete1 cfg o h s) as [[s' dang] okb]. simpl in G1.
+    destruct okb; simpl; auto.
+  Qed.
+  (* ----- GC ----- *)
+  Section GC.
+    Variables (bl : list nat) (ix : rmap) (g0 : list nat).
+    Hypothesis H : InvC bl ix g0.
+
+    Record GcInv (a : gcacc) : Prop := {
+      gi_ix : IxInv (r_index (g_res a));
+      gi_val : forall r d, lookup r (r_index (g_res a)) = Some d -> In (d_node d) bl /\ In (d_node d) (g_gr a);
+      gi_gr : forall x, In x (g_gr a) -> mf x = true -> In x bl }.
+
+    Lemma entry_present r d : In (r, d) ix -> In (d_node d) bl.
+    Proof. intro I. eapply inv_i4; [exact H|]. apply In_lookup; eauto. apply H. Qed.
+
+    Lemma gcinv_dig rs g tg tg' d : GcInv (mkGc rs g tg) -> In (d_node d) bl ->
+      GcInv (mkGc (res_tag (strip d) (RDig (d_node d)) rs) (index_all bl (d_node d) g) tg').
+    Proof.
+      intros [I V G] B. cbn [r_index g_res g_gr g_tagged res_tag] in *. split; cbn [r_index g_res g_gr g_tagged res_tag].
+      - apply (ixinv_set_dig _ (strip d)). exact I.
+      - intros r d' L. rewrite lookup_rset in L. destruct (ref_eqb r (RDig (d_node d))).
+        + injection L as <-. simpl. split; auto. apply index_all_root. auto.
+        + apply V in L as [L1 L2]. split; auto. now apply index_all_mono.
+      - intros x Ix Mx. eapply index_all_present; eauto.
+    Qed.
+    Lemma gcinv_dig_same rs g tg tg' d : GcInv (mkGc rs g tg) -> In (d_node d) bl -> In (d_node d) g ->
+      GcInv (mkGc (res_tag (strip d) (RDig (d_node d)) rs) g tg').
+    Proof.
+      intros [I V G] B Ig. cbn [r_index g_res g_gr g_tagged res_tag] in *. split; cbn [r_index g_res g_gr g_tagged res_tag]; try exact G.
+      - apply (ixinv_set_dig _ (strip d)). exact I.
+      - intros r d' L. rewrite lookup_rset in L. destruct (ref_eqb r (RDig (d_node d))).
+        + injection L as <-. simpl. split; assumption.
+        + eapply V; eassumption.
+    Qed.
+    Lemma gcinv_tag rs g tg tg' d t : GcInv (mkGc rs g tg) ->
+      lookup (RDig (d_node d)) (r_index rs) <> None -> In (d_node d) bl -> In (d_node d) g ->
+      GcInv (mkGc (res_tag d (RTag t) rs) g tg').
+    Proof.
+      intros [I V G] L B Ig. cbn [r_index g_res g_gr g_tagged res_tag] in *. split; cbn [r_index g_res g_gr g_tagged res_tag]; try exact G.
+      - now apply ixinv_set_tag.
+      - intros r d' L'. rewrite lookup_rset in L'. destruct (ref_eqb r (RTag t)).
+        + injection L' as <-. split; assumption.
+        + eapply V; eassumption.
+    Qed.
+
+    Lemma pass1_inv l : forall a, (forall kv, In kv l -> In kv ix) -> GcInv a -> GcInv (gc_pass1 bl l a).
+    Proof.
+      induction l as [|[r d] l IH]; intros a Hl Ga; simpl; auto.
+      apply IH; [intros kv I; apply Hl; now right|].
+      simpl. destruct (is_digest_ref r d) eqn:E; auto.
+      assert (I : In (r, d) ix) by (apply Hl; now left).
+      destruct (nondigest_is_tag _ _ _ (inv_ix _ _ _ H) I E) as (t & ->).
+      destruct a as [rs g tg]. simpl.
+      eapply gcinv_tag.
+      - apply (gcinv_dig rs g tg tg); auto. eapply entry_present; eauto.
+      - cbn [r_index res_tag]. rewrite lookup_rset_eq. congruence.
+      - eapply entry_present; eauto.
+      - apply index_all_root. intro. eapply entry_present; eauto.
+    Qed.
+
+    Lemma pass2_inv l : forall a a' b, (forall kv, In kv l -> In kv ix) -> GcInv a ->
+      gc_pass2 bl l a = Some (a', b) -> GcInv a'.
+    Proof.
+      induction l as [|[r d] l IH]; intros a a' b Hl Ga E; simpl in E.
+      - now injection E as <- _.
+      - assert (Hl' : forall kv, In kv l -> In kv ix) by (intros kv I; apply Hl; now right).
+        destruct (negb (is_digest_ref r d) || mem (d_node d) (g_tagged a)) eqn:C; [eauto|].
+        destruct (sk (d_node d) && negb (mem (d_node d) bl)); [now injection E as <- _|].
+        destruct (subj (d_node d)) as [sb|]; [|eauto].
+        destruct (mem sb (g_gr a)); [|discriminate].
+        eapply IH; [exact Hl'| |exact E].
+        destruct a as [rs g tg]. simpl. apply (gcinv_dig rs g tg tg); auto.
+        eapply entry_present. apply Hl. now left.
+    Qed.
+
+    Definition p3step (a : gcacc) (kv : ref * desc) : gcacc :=
+      let r := fst kv in let d := snd kv in
+      if is_digest_ref r d && mem (d_node d) (g_gr a) then
+        match lookup r (r_index (g_res a)) with
+        | None => mkGc (res_tag (strip d) r (g_res a)) (g_gr a) (g_tagged a)
+        | Some _ => a
+        end
+      else a.
+
+    Lemma p3step_gr a kv : g_gr (p3step a kv) = g_gr a.
+    Proof.
+      unfold p3step. destruct (_ && _); auto. destruct (lookup _ _); auto.
+    Qed.
+    Lemma p3step_mono a kv r' : lookup r' (r_index (g_res a)) <> None ->
+      lookup r' (r_index (g_res (p3step a kv))) <> None.
+    Proof.
+      intro L. unfold p3step. destruct (_ && _); auto. destruct (lookup (fst kv) _); auto.
+      cbn [r_index g_res res_tag]. rewrite lookup_rset. destruct (ref_eqb r' (fst kv)); congruence.
+    Qed.
+    Lemma p3step_hit a r d : is_digest_ref r d = true -> In (d_node d) (g_gr a) ->
+      lookup r (r_index (g_res (p3step a (r, d)))) <> None.
+    Proof.
+      intros E I. unfold p3step. simpl. rewrite E. apply mem_In in I. rewrite I. simpl.
+      destruct (lookup r (r_index (g_res a))) eqn:L; [congruence|].
+      cbn [r_index g_res res_tag]. rewrite lookup_rset_eq. congruence.
+    Qed.
+    Lemma p3step_inv a kv : In kv ix -> GcInv a -> GcInv (p3step a kv).
+    Proof.
+      intros I Ga. destruct kv as [r d]. unfold p3step. simpl.
+      destruct (is_digest_ref r d) eqn:E; simpl; auto.
+      destruct (mem (d_node d) (g_gr a)) eqn:M; auto.
+      destruct (lookup r (r_index (g_res a))); auto.
+      apply digest_ref_inv in E. subst r. destruct a as [rs g tg]. simpl in *.
+      apply (gcinv_dig_same rs g tg tg); auto; [eapply entry_present; eauto | now apply mem_In].
+    Qed.
+
+    Lemma pass3_eq l a : gc_pass3 l a = fold_left p3step l a.
+    Proof. reflexivity. Qed.
+
+    Lemma pass3_inv l : forall a, (forall kv, In kv l -> In kv ix) -> GcInv a ->
+      GcInv (fold_left p3step l a) /\ g_gr (fold_left p3step l a) = g_gr a /\
+      (forall r', lookup r' (r_index (g_res a)) <> None -> lookup r' (r_index (g_res (fold_left p3step l a))) <> None).
+    Proof.
+      induction l as [|kv l IH]; intros a Hl Ga; simpl; auto.
+      destruct (IH (p3step a kv)) as (A & B & C).
+      - intros x I. apply Hl. now right.
+      - apply p3step_inv; auto. apply Hl. now left.
+      - split; auto. split; [now rewrite B, p3step_gr|].
+        intros r' L. apply C. now apply p3step_mono.
+    Qed.
+    Lemma pass3_hit l : forall a r d, (forall kv, In kv l -> In kv ix) -> GcInv a ->
+      In (r, d) l -> is_digest_ref r d = true -> In (d_node d) (g_gr a) ->
+      lookup r (r_index (g_res (fold_left p3step l a))) <> None.
+    Proof.
+      induction l as [|kv l IH]; intros a r d Hl Ga I E Ig; simpl in *; [tauto|].
+      assert (Hl' : forall x, In x l -> In x ix) by (intros x Ix; apply Hl; now right).
+      assert (Ga' : GcInv (p3step a kv)) by (apply p3step_inv; auto).
+      destruct I as [->|I].
+      - apply (pass3_inv l (p3step a (r, d)) Hl' Ga'). now apply p3step_hit.
+      - eapply IH; eauto. now rewrite p3step_gr.
+    Qed.
+  End GC.
+
+  Lemma gc_good cfg o s : Good cfg s -> Good cfg (fst (st_gc cfg o s)).
+  Proof.
+    intros G. unfold OciIndex.st_gc.
+    set (a1 := gc_pass1 (blobs s) (shuffle (o_gc1 o) (r_index (res s))) (mkGc res_empty [] [])).
+    destruct (gc_pass2 (blobs s) (shuffle (o_gc2 o) (r_index (res s))) a1) as [[a2 [|]]|] eqn:P2; auto.
+    destruct G as [H S]. pose proof H as H0. unfold Inv, idx in H0.
+    assert (G0 : GcInv (blobs s) (mkGc res_empty [] [])).
+    { split; simpl.
+      - split; simpl; [constructor| |]; intros ? ? X; discriminate.
+      - intros ? ? X; discriminate.
+      - intros ? []. }
+    assert (G1 : GcInv (blobs s) a1).
+    { apply (pass1_inv _ _ _ H0); auto. intros kv I. now apply In_shuffle in I. }
+    assert (G2 : GcInv (blobs s) a2).
+    { eapply (pass2_inv _ _ _ H0); [|exact G1|exact P2]. intros kv I. now apply In_shuffle in I. }
+    rewrite pass3_eq.
+    destruct (pass3_inv _ _ _ H0 (r_index (res s)) a2 (fun kv I => I) G2) as (G3 & Eg & Mono).
+    set (a3 := fold_left p3step (r_index (res s)) a2) in *.
+    assert (I3 : forall dk, Inv (mkStore (filter (fun k => mem k (g_gr a3)) (blobs s)) (g_res a3) (g_gr a3) dk)).
+    { intro dk. unfold Inv, idx. simpl. split.
+      - apply G3.
+      - intros r d L. apply (gi_val _ _ G3) in L as [L1 L2]. apply filter_In. split; auto. now apply mem_In.
+      - intros k Mk Ik. apply filter_In in Ik as [Ik Ig]. apply mem_In in Ig.
+        pose proof (inv_k _ _ _ H0 _ Mk Ik) as X.
+        destruct (lookup (RDig k) (r_index (res s))) as [d|] eqn:L; [|congruence].
+        pose proof (ix_j2 _ (inv_ix _ _ _ H0) _ _ L) as Ek.
+        apply (pass3_hit _ _ _ H0 (r_index (res s)) a2 (RDig k) d (fun kv I => I) G2).
+        + now apply lookup_Some_In.
+        + apply digest_ref_inv. congruence.
+        + rewrite Ek. unfold a3 in Eg. rewrite <- Eg. exact Ig.
+      - intros k Mk Ik. apply filter_In. split; [|now apply mem_In]. eapply gi_gr; eauto.
+      - intros k Mk Ik. apply filter_In in Ik as [_ Ik]. now apply mem_In. }
+    unfold maybe_save, do_save. destruct (autosave cfg) eqn:A; simpl.
+    - split; [apply I3|]. intros _. unfold Synced, idx. simpl. apply save_diskok. apply G3.
+    - split; [apply I3|]. intro X; congruence.
+  Qed.
+
+  (* ----- reopening ----- *)
+  Lemma reopen_good s : Inv s -> Synced s -> Inv (reopen s) /\ Synced (reopen s).
+  Proof.
+    intros H S. unfold OciIndex.reopen, load_index. rewrite load_split. simpl.
+    pose proof H as H0. unfold Inv, idx in H0. unfold Synced, idx in S.
+    pose proof (inv_ix _ _ _ H0) as I.
+    split.
+    - unfold Inv, idx. simpl. split.
+      + now apply (reload_inv (disk s) (r_index (res s))).
+      + intros r d L. destruct r as [t|k].
+        * rewrite (reload_tag _ _ S) in L.
+          destruct (lookup (RTag t) (r_index (res s))) as [d0|] eqn:L0; [|discriminate].
+          injection L as <-. simpl. eapply inv_i4; eauto.
+        * pose proof (reload_j2 _ _ S _ _ L) as Ek.
+          assert (X : lookup (RDig k) (r_index (res s)) <> None).
+          { apply (reload_dig _ _ S). congruence. }
+          destruct (lookup (RDig k) (r_index (res s))) as [d0|] eqn:L0; [|congruence].
+          pose proof (ix_j2 _ I _ _ L0) as E0. rewrite Ek, <- E0. eapply inv_i4; eauto.
+      + intros k Mk Ik. apply (reload_dig _ _ S). eapply inv_k; eauto.
+      + intros k Mk Ik. apply (load_gr_present (blobs s) (disk s) []) in Ik; auto. intros ? [].
+      + intros k Mk Ik. pose proof (inv_k _ _ _ H0 _ Mk Ik) as X.
+        apply (dk4 _ _ S) in X as (e & Ie & <-). apply load_gr_root; auto.
+    - unfold Synced, idx. simpl. exact (reload_diskok _ _ S).
+  Qed.
 End Univ.
